@@ -252,7 +252,32 @@ pub fn check_run(case: &Case, run: &Run) -> Result<(bool, bool), Fail> {
     Ok((any_snapshot && (snapshot_during_commit || run.stale_reads > 0), snapshot_during_commit))
 }
 
+/// Base times at and above this value are "the wall clock now, give or take": `NOW_BASE + k`
+/// stands for (current time in ms) - 100 000 + k, resolved once per execution, so that relations
+/// between the arguments and the machine's own clock are reachable (k < 200 000: from 100 s
+/// behind to 100 s ahead).  All other values are literal.
+pub const NOW_BASE: u64 = 1 << 62;
+
+fn resolve_now(case: &Case) -> Case {
+    let now_ms = std::time::SystemTime::now().duration_since(std::time::UNIX_EPOCH).map(|d| d.as_millis() as u64).unwrap_or(1_700_000_000_000);
+    let map = |t: u64| if (NOW_BASE..NOW_BASE + 200_000).contains(&t) { now_ms - 100_000 + (t - NOW_BASE) } else { t };
+    let mut c = case.clone();
+    for p in c.programs.iter_mut() {
+        for op in p.iter_mut() {
+            *op = match *op {
+                Op::Update(t) => Op::Update(map(t)),
+                Op::TryUpdate(t) => Op::TryUpdate(map(t)),
+                Op::UpdateUnwinding(t) => Op::UpdateUnwinding(map(t)),
+                other => other,
+            };
+        }
+    }
+    c
+}
+
 pub fn check_case(case: &Case) -> CaseResult {
+    let resolved = resolve_now(case);
+    let case = &resolved;
     let run = abt::run(
         Plan {
             programs: case.programs.clone(),
@@ -283,10 +308,15 @@ fn remarkable() -> impl Strategy<Value = u64> {
     })
 }
 
+/// Base times around the machine's own clock (see [`NOW_BASE`]): within a few seconds of it, on both sides.
+fn near_now() -> impl Strategy<Value = u64> {
+    prop_oneof![3 => 95_000u64..105_000, 1 => 40_000u64..160_000, 1 => 0u64..200_000].prop_map(|k| NOW_BASE + k)
+}
+
 fn op() -> impl Strategy<Value = Op> {
     prop_oneof![
         8 => Just(Op::Snapshot),
-        6 => prop_oneof![12 => 1u64..7, 1 => Just(0u64), 1 => Just(u64::MAX), 1 => Just(u64::MAX - 1), 2 => remarkable()].prop_map(Op::Update),
+        6 => prop_oneof![12 => 1u64..7, 1 => Just(0u64), 1 => Just(u64::MAX), 1 => Just(u64::MAX - 1), 2 => remarkable(), 3 => near_now()].prop_map(Op::Update),
         4 => prop_oneof![12 => 1u64..7, 1 => Just(0u64), 1 => Just(u64::MAX), 1 => remarkable()].prop_map(Op::TryUpdate),
         2 => Just(Op::Sequence),
         // Rejected updates (the writer panics while it holds the lock, which poisons it).
@@ -387,7 +417,7 @@ fn replay(_ctx: &Ctx, _group: &str, case: &Value) -> CaseResult {
 pub fn def() -> PropDef {
     PropDef {
         id: "C13",
-        rule: "A case is (2..3 thread programs of 1..3 operations from snapshot / update(t) / try_update(t) / sequence with t from a small non-monotone set (plus 0, u64::MAX and the base times whose valid voucher is all zeroes / one / all ones / the top bit only), and (one operation in eleven) update / try_update with a voucher that does not match the base time, which the crate rejects by panicking inside the critical section - the lock is then poisoned and the next writer recovers; and a valid update made from a destructor while the thread unwinds from an unrelated panic, which is an update like any other; a schedule: a list of (thread choice, uninterrupted run length) segments; a list of reads-from choices). Each logical thread is an OS thread that only runs while it holds the harness's baton, handed over at every hooked atomic load/store and lock/try_lock/unlock (vouched_time verif_sync hook), so the generated schedule fully determines the interleaving; atomic operations execute against a view-based release/acquire memory model owned by the harness: a load may read any message at or above the thread's view of that location (the generated choice picks which), Acquire loads join the message's released view, Relaxed operations transfer nothing, lock/unlock are acquire/release - so the stale reads a weakened ordering would permit are generated even though the host is x86. Oracles: no panic (the crate's internal voucher check is its own tearing detector); every snapshot pair is the epoch pair or a pair passed to some update; per-thread snapshot base times never decrease (own accepted updates included); a snapshot's base time is >= that of every commit in the thread's view of the sequence word when it began (happens-before), and, in executions without any stale read, >= that of every commit completed before it began; replaying the critical sections in order through the monotone filter (a rejected pair changes nothing; the section after a panic is the poison recovery) predicts exactly the commit stores, every try_update return value, and the final pair and sequence number read after joining. writer-laps-reader biases towards long writer runs between a reader's loads; bounded-preemptions enumerates every schedule with <= 2 (3) preemptions for five fixed programs. Non-trivial: a case with a snapshot during which a commit store occurred, or in which a non-latest read was taken. Distinct: hash of the serialised case / by enumeration.",
+        rule: "A case is (2..3 thread programs of 1..3 operations from snapshot / update(t) / try_update(t) / sequence with t from a small non-monotone set (plus 0, u64::MAX, base times within 100 s of the machine's own clock on either side - resolved when the case runs - and the base times whose valid voucher is all zeroes / one / all ones / the top bit only), and (one operation in eleven) update / try_update with a voucher that does not match the base time, which the crate rejects by panicking inside the critical section - the lock is then poisoned and the next writer recovers; and a valid update made from a destructor while the thread unwinds from an unrelated panic, which is an update like any other; a schedule: a list of (thread choice, uninterrupted run length) segments; a list of reads-from choices). Each logical thread is an OS thread that only runs while it holds the harness's baton, handed over at every hooked atomic load/store and lock/try_lock/unlock (vouched_time verif_sync hook), so the generated schedule fully determines the interleaving; atomic operations execute against a view-based release/acquire memory model owned by the harness: a load may read any message at or above the thread's view of that location (the generated choice picks which), Acquire loads join the message's released view, Relaxed operations transfer nothing, lock/unlock are acquire/release - so the stale reads a weakened ordering would permit are generated even though the host is x86. Oracles: no panic (the crate's internal voucher check is its own tearing detector); every snapshot pair is the epoch pair or a pair passed to some update; per-thread snapshot base times never decrease (own accepted updates included); a snapshot's base time is >= that of every commit in the thread's view of the sequence word when it began (happens-before), and, in executions without any stale read, >= that of every commit completed before it began; replaying the critical sections in order through the monotone filter (a rejected pair changes nothing; the section after a panic is the poison recovery) predicts exactly the commit stores, every try_update return value, and the final pair and sequence number read after joining. writer-laps-reader biases towards long writer runs between a reader's loads; bounded-preemptions enumerates every schedule with <= 2 (3) preemptions for five fixed programs. Non-trivial: a case with a snapshot during which a commit store occurred, or in which a non-latest read was taken. Distinct: hash of the serialised case / by enumeration.",
         assumptions: &[
             "the memory model is the promise-free release/acquire fragment: every execution it produces is allowed by the C++20/Rust model; load-buffering behaviours that need promises are not generated; SeqCst, if introduced, is executed as 'read latest + full view transfer'",
             "stores are appended at the end of the modification order (writers are serialised by the lock)",
